@@ -155,6 +155,23 @@ CLAIMED = {
              "and merge_all are not theorems (correspondence + direct spec check only).",
         technique="Coq proof over translator-generated criteria (partition, hull, fresh ids, maximal runs by induction over the pass) + exhaustive small-scope differential correspondence",
         design="4 (C16)"),
+    "C15": dict(
+        text="Coq theorems (Properties/C15.v, closed under the global context) about the model of FeatureDB.interfeatures "
+             "(the running loop with its reused dict, coordinate fix-up and empty-gap suppression) and create_splice_sites: the "
+             "output is, in order, exactly one feature per consecutive pair on one seqid with >= 1 base between them and none "
+             "otherwise; each spans previous.end+1 .. next.start-1, is typed new_featuretype or inter_A_B, stranded like both "
+             "neighbours or '.', carries merge_attributes of the neighbours (+ update_attributes) with several ID values joined by "
+             "'-', and a bin recomputed from the new coordinates; N inputs give <= N-1 outputs; splice sites are [start,start+1] "
+             "/ [end-1,end] of each such intron with the five/three-prime label table by side and strand. Tied to interface.py by "
+             "every list of <= 3 (thorough 4) features over 6 positions x seqid/strand mixtures, 1.2k random lists x flag "
+             "combinations, and 200 gene/transcript/exon databases for create_introns/create_splice_sites; inputs and database "
+             "are checked to be unchanged; outputs also compared with the declarative gap geometry inside Coq.",
+        note="Trusted: Coq kernel + vm_compute; Model/Inter.v and Model/Attrs.v hand-written, tied by the correspondence. "
+             "float() (numeric_sort) is modelled on plain decimals of <= 15 digits only; values like '1e3', 'inf' or non-ASCII "
+             "digits make a case out of domain. create_introns' selection of transcripts and of their start-ordered exon "
+             "children is covered by the correspondence and by C02/C11's theorems, not re-proved here.",
+        technique="Coq proof (loop = declarative gaps by induction; splice-site geometry) + exhaustive small-scope differential correspondence",
+        design="4 (C15)"),
 }
 
 PENDING_REASON = "machinery for this property is not built yet in this revision (planned, see DESIGN.md section 4/9); not claimed until its check exists"
